@@ -141,7 +141,8 @@ def generate(rng, tier):
         if np.linalg.det(Q) < 0:
             Q[:, 0] = -Q[:, 0]
         cases.append({"kind": "scm", "family": fam, "v": v, "t": t, "Q": Q.tolist(), "s": rng.choice([1.0, 0.05, 30.0]),
-                      "off": [rng.uniform(-3, 3) for _ in range(3)], "mobius": i < (2 if q else 8)})
+                      "off": [rng.uniform(-3, 3) for _ in range(3)], "mobius": i < (2 if q else 8),
+                      "mobius_scale": [0.05, 1.0, 30.0][i % 3]})
     for _ in range(3 if q else 10):
         kind = rng.choice(["torus", "open", "two_spheres"])
         if kind == "torus":
@@ -267,10 +268,12 @@ def run_impl(case):
                     out["S2"] = core.errkind(e) + ":" + str(e)[:100]
                 if case["mobius"]:
                     try:
-                        Sm, res = conformal.mobius_area_correction_spherical(m, np.array(out["S"]))
+                        # the correction is also run on a uniformly scaled copy of the mesh (the objective uses relative areas)
+                        msc = TriaMesh(P * case.get("mobius_scale", 1.0), T.copy())
+                        Sm, res = conformal.mobius_area_correction_spherical(msc, np.array(out["S"]))
                         out["Sm"] = np.asarray(Sm, float).tolist()
                         out["mobius_x"] = [float(q) for q in res.x]
-                        at = m.tria_areas()
+                        at = msc.tria_areas()
                         at = at / at.sum()
 
                         def obj(X):
